@@ -7,6 +7,8 @@ PM = 'src/geom/PrecisionModel.cpp'
 UNITS = {
     'HP_intersectsScaled': dict(src=HP, qual='geos::noding::snapround::HotPixel::intersectsScaled', nparams=4, imports=['C04.GenPreludeHP'],
                                 gname='g_intersectsScaled', consts={'TOLERANCE': 'geos::noding::snapround::HotPixel::TOLERANCE'}, imports_last=True),
+    'HP_intersectsPt': dict(src=HP, qual='geos::noding::snapround::HotPixel::intersects', nparams=1, imports=['C04.GenPreludeHP'],
+                            gname='g_intersectsPt', consts={'TOLERANCE': 'geos::noding::snapround::HotPixel::TOLERANCE'}, imports_last=True),
     'PM_makePrecise': dict(src=PM, qual='geos::geom::PrecisionModel::makePrecise', nparams=1, ptypes=['double'], imports=['Lib.GenPreludeF', 'C04.GenPreludePM'],
                            gname='g_makePrecise', imports_last=True,
                            enum_scopes={k: 'geos::geom::PrecisionModel::' + k for k in ('FIXED', 'FLOATING', 'FLOATING_SINGLE')}),
